@@ -393,3 +393,50 @@ def facts(job):
             "float_str": [str(Float(0.125)), str(Float(2.675)), str(Float(1234.56789)), str(Float(1e-5))],
             "float_fmt": [format(Float(0.125), ".2f"), format(Float(2.675), ".2f"), format(Float(-0.004), ".2f"),
                           format(Float(2.5), ".0f"), format(Float(Rational(1, 8)), ".2f"), format(Float(Rational(-7, 8823)), ".3f")]}
+
+
+# ------------------------------------------------------------------ shipped fixtures
+import glob
+import logging
+import os
+from pathlib import Path
+
+
+def fixtures(job):
+    """numeric condition sets of the actions of every shipped domain that parses (top-level conjunctions and nested ones)"""
+    logging.disable(logging.CRITICAL)
+    from pddl_plus_parser.lisp_parsers import DomainParser
+    from pddl_plus_parser.models.numerical_expression import NumericalExpressionTree
+    from pddl_plus_parser.models.pddl_precondition import Precondition
+    import pddl_plus_parser
+    root = Path(pddl_plus_parser.__file__).resolve().parent.parent / "tests"
+    seen, out = set(), []
+
+    def walk(pre, acc):
+        nums = [o for o in pre.operands if isinstance(o, NumericalExpressionTree)]
+        if nums and pre.binary_operator == "and":
+            acc.append(nums)
+        for o in pre.operands:
+            if isinstance(o, Precondition):
+                walk(o, acc)
+    files = sorted(glob.glob(str(root / "**" / "*.pddl"), recursive=True))
+    parsed = 0
+    for f in files:
+        try:
+            d = DomainParser(Path(f)).parse_domain()
+        except BaseException:  # noqa
+            continue
+        if not getattr(d, "actions", None):
+            continue
+        parsed += 1
+        for name, a in d.actions.items():
+            acc = []
+            walk(a.preconditions.root, acc)
+            for nums in acc:
+                texts = sorted(x.to_pddl(6) for x in nums)
+                key = tuple(texts)
+                if key in seen:
+                    continue
+                seen.add(key)
+                out.append({"file": os.path.relpath(f, str(root)), "action": name, "conds": texts})
+    return {"files": len(files), "parsed_domains": parsed, "sets": out}
